@@ -167,6 +167,8 @@ func (e *Engine) RunRoot(fn *ssa.Function) (err error) {
 		return fmt.Errorf("%s: no body", e.rootKey)
 	}
 	fr.block = fn.Blocks[0]
+	cutEntryAssumes = s.assumes // cut.go: the facts that hold at entry
+	cutSeen = map[ssa.Instruction]bool{}
 	return e.runStates([]*State{s})
 }
 
@@ -195,6 +197,12 @@ func (e *Engine) runStates(work []*State) error {
 			return fmt.Errorf("exploration budget (%s) exceeded in %s after %d states: split the function with contracts", budget, e.rootKey, e.statesRun)
 		}
 		succ := e.runUntilBranch(s)
+		if cutDropPending {
+			// "at <anchor> start" (cut.go): the paths still pending lead to the same anchor or leave the function
+			// before it; nothing that is claimed depends on them
+			work = work[:0]
+			cutDropPending = false
+		}
 		work = append(work, succ...)
 	}
 	return nil
